@@ -1,7 +1,7 @@
 # C18 -- isequal / isclose are exact, shape-aware, symmetric, total comparison oracles
 META = dict(
     level='proof',
-    level_text='Every wrapper postcondition is `result == oracle definition` (same length and all elements equal / all |a[i]-b[i]| < eps, looking only at [0,len) of either operand, both argument orders) and is discharged by CBMC (dfcc) for all inputs of the instantiation: the two element loops (detail::isequal index-array branch, detail::isclose ndarray branch) are closed by loop contracts, everything else is loop-free; index arrays static_vector<size_t,8> (length 0..8 symbolic, all 64-bit values, storage behind size_ nondeterministic), array<size_t,3>, optionals, scalars, static_vector<float,8> with arbitrary float eps. On the unchanged tree the proof holds on the complement of the recorded defect regions (length/shape mismatch that the code does not look at).',
+    level_text='Every wrapper postcondition is `result == oracle definition` (same length and all elements equal / all |a[i]-b[i]| < eps, looking only at [0,len) of either operand, both argument orders) and is discharged by CBMC (dfcc) for all inputs of the instantiation: the two element loops (detail::isequal index-array branch, detail::isclose ndarray branch) are closed by loop contracts, everything else is loop-free; index arrays static_vector<size_t,8> (length 0..8 symbolic, all 64-bit values, storage behind size_ nondeterministic), array<size_t,3>, optionals, scalars, static_vector<float,8> with arbitrary float eps. Two defects found by these contracts (length / shape mismatch only guarded by an assert that -DNDEBUG removes: isequal([1,2],[1,2,3]) == true, isclose([x],[]) SIGFPE) were confirmed by native replay and are fixed in /repo (d5a400c, d860e27); the proof now holds for all inputs.',
     level_note='isclose at array level is proved modularly: the scalar kernel detail::isclose(float,float,float) is proved bit-precisely equal to |t-u| < eps (and symmetric) and used through that contract, with the predicate uninterpreted, in the array unit; array-level symmetry of isclose follows from the scalar symmetry + the symmetric form of the definition (not a separate obligation). Trusted: clang AST, cxx2c rendering, C models of std::optional / std::array, CBMC.',
     trusted_base=[
         'clang 14 front end (AST of the instantiated templates)', 'engine/cxx2c.py (C++ AST -> C rendering)',
